@@ -50,6 +50,7 @@ type simStreamCase struct {
 	Version   quic.Version
 	Seed      uint64
 	MaxChunk  int
+	BlackoutAt, BlackoutDur int // ms after the handshake / ms: every datagram in both directions is dropped in that window (0 = none)
 }
 
 func (c simStreamCase) String() string {
@@ -57,7 +58,7 @@ func (c simStreamCase) String() string {
 	for i, f := range c.Faults {
 		fs[i] = f.String()
 	}
-	return fmt.Sprintf("client=%s v=%x streams=%v echo=%v dgrams=%d loss=%d%% faults=[%s] seed=%d", c.Client, uint32(c.Version), c.Streams, c.Echo, c.Dgrams, c.LossPct, strings.Join(fs, " "), c.Seed)
+	return fmt.Sprintf("client=%s v=%x streams=%v echo=%v dgrams=%d loss=%d%% blackout=%d+%dms faults=[%s] seed=%d", c.Client, uint32(c.Version), c.Streams, c.Echo, c.Dgrams, c.LossPct, c.BlackoutAt, c.BlackoutDur, strings.Join(fs, " "), c.Seed)
 }
 
 var parrotIDs = map[string]quic.QUICID{
@@ -199,6 +200,19 @@ func runOneSimStream(c simStreamCase) (fails []monFail, info string) {
 		}
 		<-srvReady
 		start := time.Now()
+		if c.BlackoutDur > 0 {
+			// a path outage shorter than the idle timeout: transfers must still complete afterwards
+			time.AfterFunc(time.Duration(c.BlackoutAt)*time.Millisecond, func() {
+				e.Router.mu.Lock()
+				e.Router.blackhole = true
+				e.Router.mu.Unlock()
+				time.AfterFunc(time.Duration(c.BlackoutDur)*time.Millisecond, func() {
+					e.Router.mu.Lock()
+					e.Router.blackhole = false
+					e.Router.mu.Unlock()
+				})
+			})
+		}
 		// datagrams client -> server
 		sentD := map[string]bool{}
 		for i := 0; i < c.Dgrams; i++ {
@@ -369,6 +383,14 @@ func genSimStreamCase(r *u.Rng, maxSize int) simStreamCase {
 	if r.Chance(1, 3) {
 		c.LossPct = r.Range(1, 12)
 	}
+	if r.Chance(1, 3) {
+		// outage of 1..60 RTTs (RTT 10 ms) starting while data is in flight; at least one
+		// stream is made large enough to be congestion-window limited when it starts
+		c.BlackoutAt = r.Range(1, 60)
+		c.BlackoutDur = r.Range(10, 600)
+		c.Streams[0] = maxSize*4 + r.Range(0, maxSize)
+		c.LossPct = 0
+	}
 	switch r.Intn(4) {
 	case 0:
 		c.Client = "plain"
@@ -422,7 +444,7 @@ func runSimStream(w *bufio.Writer, seed uint64, n int, args []string) {
 		dist["client="+c.Client]++
 		dist[fmt.Sprintf("faults=%d", len(c.Faults))]++
 		nt := 0
-		if len(c.Faults) > 0 || c.LossPct > 0 {
+		if len(c.Faults) > 0 || c.LossPct > 0 || c.BlackoutDur > 0 {
 			nt = 1
 		}
 		fmt.Fprintf(w, "CASE %d %s\n", nt, c.String())
